@@ -10,6 +10,11 @@ def intersect_lines(p0, q0, p1, q1):
     See also:
         https://math.stackexchange.com/a/271366/640314
     """
+    vg.shape.check(locals(), "p0", (3,))
+    vg.shape.check(locals(), "q0", (3,))
+    vg.shape.check(locals(), "p1", (3,))
+    vg.shape.check(locals(), "q1", (3,))
+
     e = p0 - q0  # direction of line 0
     f = p1 - q1  # direction of line 1
 
